@@ -546,41 +546,59 @@ def rop_identity(ctx, am):
     sa = repo.func(P + 'serialize_association')
     Q = P + 'serialize_association'
     av = param_names(sa, skip_self=False)[0]
-    # ---- writer: text slots
-    defs = {}
-    for st in body_without_doc(sa):
-        if isinstance(st, ast.Assign) and isinstance(st.targets[0], ast.Name):
-            defs[st.targets[0].id] = st.value
-    ret = [n for n in ast.walk(sa) if isinstance(n, ast.Return)][0].value
-    m = pm.match("'CREATE ROP REF_ID %s FROM %s TO %s;\\n' % (_R, _A, _B)", ret)
-    if m is None:
-        raise AnalysisError('%s: final format of serialize_association not recognised' % loc(sa))
-    slots = {'rel_id': src(m['_R'])}
-    for end, var in (('FROM', m['_A']), ('TO', m['_B'])):
-        if not (isinstance(var, ast.Name) and var.id in defs):
-            raise AnalysisError('%s: end text variable not found' % loc(sa))
-        m2 = pm.match("'%s %s (%s)' % (_C, _K, ', '.join(_KEYS))", defs[var.id])
-        if m2 is None:
-            raise AnalysisError('%s: end format not recognised' % loc(sa))
-        slots[end + '.card'] = src(m2['_C'])
-        slots[end + '.kind'] = src(m2['_K'])
-        slots[end + '.keys'] = src(m2['_KEYS'])
-        ph = None
-        for st in body_without_doc(sa):
-            if isinstance(st, ast.If):
-                for x in st.body:
-                    m3 = pm.match("%s += \" PHRASE '%%s'\" %% _P" % var.id, x)
-                    if m3:
-                        ph = m3['_P']
-                        cond = src(st.test)
-                        base = ph
-                        if isinstance(base, ast.Call) and isinstance(base.func, ast.Attribute) and base.func.attr == 'replace':
-                            base = base.func.value
-                        r.check(cond == src(base), 'the %s phrase is written iff it is non-empty' % end, st, construct=Q, key='phrase-cond ' + end,
-                                msg='the %s phrase `%s` is written under the condition `%s`' % (end, src(base), cond))
-                        slots[end + '.phrase'] = src(base)
-        if ph is None:
-            r.violation('the %s end never writes a phrase' % end, sa, construct=Q, key='no-phrase ' + end)
+    # ---- writer: text slots, from the emission sequence of serialize_association (abstract execution for each combination of
+    # present / absent phrases; spelling of the string building does not matter)
+    def phrase_truth(e, s, tr):
+        link = e['_L']
+        return s['ph'].get(link)
+
+    def emission(ph):
+        it = absint.Interp(sa, [('%s._L.phrase' % av, phrase_truth)])
+        state = {'ph': ph}
+        out, tr = it.run(state)
+        if out.kind != 'return' or out.value is None:
+            raise AnalysisError('%s: serialize_association does not return its text' % loc(sa))
+        return emit.flatten(out.value)
+    full = emission({'source_link': True, 'target_link': True})
+    skeleton = [('lit', 'CREATE ROP REF_ID '), 'rel_id', ('lit', ' FROM '), 'FROM.card', ('lit', ' '), 'FROM.kind', ('lit', ' ('), 'FROM.keys',
+                ('lit', ") PHRASE '"), 'FROM.phrase', ('lit', "' TO "), 'TO.card', ('lit', ' '), 'TO.kind', ('lit', ' ('), 'TO.keys',
+                ('lit', ") PHRASE '"), 'TO.phrase', ('lit', "';\n")]
+    if len(full) != len(skeleton) or any((isinstance(k, tuple) and (p_[0] != 'lit' or p_[1] != k[1])) or (not isinstance(k, tuple) and p_[0] != 'hole')
+                                         for p_, k in zip(full, skeleton)):
+        raise AnalysisError('%s: text of serialize_association not recognised: %s' % (loc(sa), emit.show(full)))
+    slots = {}
+    for p_, k in zip(full, skeleton):
+        if isinstance(k, tuple):
+            continue
+        e_ = p_[1]
+        if k.endswith('.keys'):
+            mk = pm.match("', '.join(_KEYS)", e_)
+            if mk is None:
+                raise AnalysisError('%s: key list of %s is not written as a comma separated join' % (loc(sa), k))
+            e_ = mk['_KEYS']
+        if k.endswith('.phrase'):
+            base = e_
+            if isinstance(base, ast.Call) and isinstance(base.func, ast.Attribute) and base.func.attr == 'replace':
+                base = base.func.value
+            e_ = base
+        slots[k] = src(e_)
+    # a phrase is written iff it is non-empty: the four combinations
+    for fs, ts in itertools.product([True, False], repeat=2):
+        # which link's phrase feeds which end is read off the full text
+        ph = {}
+        for end, val in (('FROM', fs), ('TO', ts)):
+            m_ = re.match(r'^%s\.(source_link|target_link)\.phrase$' % av, slots[end + '.phrase'])
+            if m_:
+                ph[m_.group(1)] = val
+        if len(ph) != 2:
+            break
+        seq = emission(ph)
+        text = emit.show(seq)
+        has_from = " FROM " in text and "PHRASE" in text.split(' TO ')[0]
+        has_to = "PHRASE" in text.split(' TO ')[-1]
+        r.check(has_from == fs and has_to == ts, 'phrases present (FROM %s, TO %s) are exactly the ones written' % (fs, ts), sa, construct=Q,
+                key='phrase-cond', msg='with the FROM phrase %s and the TO phrase %s serialize_association writes `%s`'
+                                       % ('non-empty' if fs else 'empty', 'non-empty' if ts else 'empty', text))
 
     def writer_param(expr):
         '''which define_association parameter does this Association/Link expression hold?'''
